@@ -6,11 +6,19 @@ CONSTANTS
   Inf = 99
   MaxFail = 2
   MaxHist = FALSE
+  StopRule = "none"
+  Amount = 0
+  CheckFirst = FALSE
   JIT = FALSE
 INVARIANT NoMoreThanRequested
 INVARIANT ReportedOnce
 INVARIANT BestIsMin
 INVARIANT FailuresIsolated
 INVARIANT AllReported
+INVARIANT BestAtEnd
+INVARIANT StopJustified
+INVARIANT NoOverrun
+INVARIANT NeverStops
+PROPERTY StoppedIsFinal
 PROPERTY Progress
 CHECK_DEADLOCK FALSE
